@@ -70,7 +70,7 @@ def make_labels(kind, lt):
     return np.array(lt, dtype=str)
 
 
-def check_point(res, kind, lt, sort, exname, chunks, method, labels_dask=False, egkind="ndarray"):
+def check_point(res, kind, lt, sort, exname, chunks, method, labels_dask=False, egkind="ndarray", reindex=None):
     import dask.array as da
 
     n = len(lt)
@@ -89,6 +89,8 @@ def check_point(res, kind, lt, sort, exname, chunks, method, labels_dask=False, 
     if chunks is not None:
         arr = da.from_array(V, chunks=((2,), chunks))
         kw["method"] = method
+        if reindex is not None:
+            kw["reindex"] = reindex
         if labels_dask:
             by = da.from_array(labels, chunks=(chunks,))
     out = e1.call_reduce(arr, by, **kw)
@@ -96,8 +98,9 @@ def check_point(res, kind, lt, sort, exname, chunks, method, labels_dask=False, 
     res.states += 1
     res.transitions += 1
     case = dict(kind=kind, labels=list(lt), sort=sort, expected=exname, chunks=list(chunks) if chunks else None, method=method,
-                labels_dask=labels_dask, egkind=egkind)
-    tags = dict(kind2=kind, sort=sort, expected=exname, chunked=chunks is not None, method=str(method), labels_dask=labels_dask, egkind=egkind)
+                labels_dask=labels_dask, egkind=egkind, reindex=reindex)
+    tags = dict(kind2=kind, sort=sort, expected=exname, chunked=chunks is not None, method=str(method), labels_dask=labels_dask, egkind=egkind,
+                reindex=str(reindex))
     size = n * 10 + (len(chunks) if chunks else 0)
     if chunks is not None and method == "blockwise":
         # the integer codes flox hands to its automatic rechunk: positions in the (sorted, if sort) requested labels,
@@ -192,6 +195,9 @@ def run_shard(shard):
                         check_point(res, kind, lt, sort, exname, ch, method)
                         if nontriv or "unsorted" in exname:
                             res.nontrivial += 1
+                        if method == "map-reduce" and len(ch) >= 2:
+                            # intermediates reindexed at combine time instead of at the block stage
+                            check_point(res, kind, lt, sort, exname, ch, method, reindex=False)
                     # chunked (dask) labels need expected_groups; given as ndarray / pandas Index / list
                     if exname in ("unsorted", "unsorted+absent") and kind != "str" and len(ch) >= 2:
                         for egkind in ("index", "list", "ndarray"):
@@ -210,5 +216,5 @@ def replay(payload):
     c = payload["case"]
     lt = tuple(unjson_float(c["labels"])) if c["kind"] == "float" else tuple(c["labels"])
     check_point(res, c["kind"], lt, c["sort"], c["expected"], tuple(c["chunks"]) if c.get("chunks") else None, c.get("method"),
-                labels_dask=c.get("labels_dask", False), egkind=c.get("egkind", "ndarray"))
+                labels_dask=c.get("labels_dask", False), egkind=c.get("egkind", "ndarray"), reindex=c.get("reindex"))
     return res
